@@ -12,6 +12,8 @@ def descriptor(s):
     return json.dumps([s['digestScript'], sorted(s['digestEnv'].items()), [t[1:] for t in s['tools']], s['args']], sort_keys=True)
 
 def check_state(model, q, log):
+    w = I.check_weak_tools(model, q, log)
+    if w: return w
     by_vid = {}
     for key, rec in q.items():
         r = model['recipes'].get(rec['recipe'])
